@@ -145,15 +145,17 @@ Fixpoint apply_all (pre : bool) (U : universe) (app : list index) (txs : list at
       end
   end.
 
+(** the supported distance is a parameter [md] of the model (the harness measures it on the
+    implementation); [max_rebase] is the repository's default *)
 Definition max_rebase : nat := 144.
 
-Definition update_proofs_gen (pre : bool) (U : universe) (gen : index) (txs : list atx) (from to : index) : rres :=
+Definition update_proofs_gen (md : nat) (pre : bool) (U : universe) (gen : index) (txs : list atx) (from to : index) : rres :=
   match U !! from.2 with
   | None => RErr EBasis
   | Some fb =>
       if negb (b_st fb) then RErr EBasis
       else if negb (forallb elements_valid txs) then RErr EProof
-      else match reorg_path U gen max_rebase from to with
+      else match reorg_path U gen md from to with
            | inl e => RErr e
            | inr (rev, app) =>
                match revert_all pre U rev txs with
@@ -162,12 +164,12 @@ Definition update_proofs_gen (pre : bool) (U : universe) (gen : index) (txs : li
                end
            end
   end.
-Definition update_proofs := update_proofs_gen false.
-Definition update_proofs_prefix := update_proofs_gen true.
+Definition update_proofs (md : nat) := update_proofs_gen md false.
+Definition update_proofs_prefix (md : nat) := update_proofs_gen md true.
 
 (** UpdateV2TransactionSet: equal indices return the caller's slice as it is *)
-Definition update_set (U : universe) (gen : index) (txs : list atx) (from to : index) : rres :=
-  if bool_decide (from = to) then ROk txs else update_proofs U gen txs from to.
+Definition update_set (md : nat) (U : universe) (gen : index) (txs : list atx) (from to : index) : rres :=
+  if bool_decide (from = to) then ROk txs else update_proofs md U gen txs from to.
 
 (** ** V2TransactionSet (manager.go:1181-1234) *)
 Inductive sres := SOk (basis : index) (l : list atx) | SErr (e : rerr) | SPanic.
@@ -175,26 +177,26 @@ Inductive sres := SOk (basis : index) (l : list atx) | SErr (e : rerr) | SPanic.
 (** repaired: the parent map is per slice (finding F17), only the caller's transaction is
     rebased from [basis] — the parents come from the pool and are already valid for the tip
     (finding F18) — and the parents are in pool order (finding F20) *)
-Definition v2_transaction_set (U : universe) (gen : index) (L : ledger) (mw : N) (tip : index)
+Definition v2_transaction_set (md : nat) (U : universe) (gen : index) (L : ledger) (mw : N) (tip : index)
     (p : pool) (basis : index) (t : atx) : sres :=
   let p := revalidate L mw p in
   match unconfirmed_parents (parent_map (v2txns p)) (v2txns p) t with
   | PPanic => SPanic
   | PList parents =>
-      match update_proofs U gen [t] basis tip with
+      match update_proofs md U gen [t] basis tip with
       | RErr e => SErr e
       | ROk l => SOk tip (parents ++ l)
       end
   end.
 (** before the repairs: one parent map for both slices, reversed discovery order, parents
     and transaction rebased together from the caller's basis *)
-Definition v2_transaction_set_prefix (U : universe) (gen : index) (L : ledger) (mw : N) (tip : index)
+Definition v2_transaction_set_prefix (md : nat) (U : universe) (gen : index) (L : ledger) (mw : N) (tip : index)
     (p : pool) (basis : index) (t : atx) : sres :=
   let p := revalidate L mw p in
   match unconfirmed_parents_prefix (parent_map_prefix (txns p) (v2txns p)) (v2txns p) t with
   | PPanic => SPanic
   | PList parents =>
-      match update_proofs U gen (parents ++ [t]) basis tip with
+      match update_proofs md U gen (parents ++ [t]) basis tip with
       | RErr e => SErr e
       | ROk l => SOk tip l
       end
